@@ -227,6 +227,37 @@ def r4_enumerator(ctx, rep, R='C19.R4'):
             isinstance(rv.ops[0], ast.Eq) and \
             norm(rv.left).endswith('.ident') and \
             norm(rv.comparators[0]).endswith('.ident')
+    # the fallback to a DummyThread is decided by "is this ident known to threading" (membership /
+    # is None), never by the truth value of the Thread object: user Thread subclasses may define
+    # __len__ / __bool__ (a worker that is "empty" while idle)
+    truthy = []
+    funcs_ = [f for f in [fi, tp.methods.get('__init__')] if f is not None]
+    for f in funcs_:
+        ps_ = {a.arg for a in f.node.args.args[1:]} if f.cls is not None else set()
+        tbl = {x.targets[0].id for x in ast.walk(f.node) if isinstance(x, ast.Assign) and
+               len(x.targets) == 1 and isinstance(x.targets[0], ast.Name) and
+               isinstance(x.value, ast.Call) and isinstance(x.value.func, ast.Attribute) and
+               x.value.func.attr == 'get'}
+
+        def is_thread_value(e):
+            return (isinstance(e, ast.Name) and (e.id in ps_ and e.id.startswith('thr') or e.id in tbl)) or (
+                isinstance(e, ast.Call) and isinstance(e.func, ast.Attribute) and e.func.attr == 'get')
+        for x in ast.walk(f.node):
+            if isinstance(x, ast.BoolOp) and any(is_thread_value(v) for v in x.values[:-1]):
+                truthy.append((f, x))
+            elif isinstance(x, (ast.IfExp, ast.If, ast.While)):
+                t = x.test
+                while isinstance(t, ast.UnaryOp) and isinstance(t.op, ast.Not):
+                    t = t.operand
+                if is_thread_value(t):
+                    truthy.append((f, x))
+    rep.check(not truthy, R, 'a Thread object is never tested for truth (membership / is None decide the DummyThread fallback)',
+              'the thread object is tested for truth (%s): a threading.Thread subclass that defines __len__ / '
+              '__bool__ and is falsy is replaced by a DummyThread -- its name is lost, so the '
+              '--ignore-new-thread patterns are matched against "Dummy-<ident>" and the report shows the '
+              'wrong thread' % '; '.join(norm(x)[:50] for _f, x in truthy[:2]), key='enumerate:truthiness',
+              func=truthy[0][0].qualname if truthy else 'threadsupport.enumerate',
+              where=ctx.where(truthy[0][0], truthy[0][1]) if truthy else 'threadsupport')
     rep.check(okeq, R, 'ThreadProxy.__eq__ compares ident', 'ThreadProxy.__eq__ does not compare '
               'thread identifiers', key='proxy:eq', func='threadsupport.ThreadProxy.__eq__')
     # hash/eq agreement: membership tests in hashed containers use __hash__ first
